@@ -389,11 +389,9 @@ def documented(case, el):
     if cls == "Converted" and scalar:
         return el.value is not None, ("incorrect", {})
     if cls == "ValueIn" and scalar and isinstance(v["valid_options"], str):
-        # "a list, set, or other container of valid element values": a str is a container of its characters; for a
-        # value that is not text nothing is contained — certainly no exception
-        if not isinstance(el.value, str):
-            return False, ("fail", {})
-        return None, None
+        # "a list, set, or other container of valid element values": for a text container membership is Python's
+        # `in` between texts; a value that is not text is in no text (6dc976e: no exception)
+        return (isinstance(el.value, str) and el.value in v["valid_options"]), ("fail", {})
     if cls == "ValueIn" and scalar:
         return any(el.value == o for o in v["valid_options"]), ("fail", {})
     if cls == "ShorterThan" and scalar:
@@ -964,7 +962,7 @@ def rand_net_case(rng):
 def hostile_case(rng):
     """validators applied outside their documented element kinds / with odd parameters"""
     if rng.random() < 0.12:
-        c = {"v": {"cls": "ValueIn", "valid_options": rng.choice(["yes", "yesno", ""])}, "build": rand_scalar_build(rng)}
+        c = {"v": {"cls": "ValueIn", "valid_options": rng.choice(["yes", "yesno", "", "abc", "7 42", "é"])}, "build": rand_scalar_build(rng)}
         return c
     r = rng.random()
     if r < 0.25:
@@ -1064,7 +1062,7 @@ class C15(Property):
         "verdict_shape",
         "luhn_pairs_eq_digits", "luhn10Check_eq", "notdup_first_kept",
         "decides_present", "decides_isTrue", "decides_isFalse", "decides_converted", "decides_valueIn",
-        "decides_shorterThan", "decides_longerThan", "decides_lengthBetween",
+        "decides_valueInText", "decides_shorterThan", "decides_longerThan", "decides_lengthBetween",
         "decides_valueLessThan", "decides_valueAtMost", "decides_valueGreaterThan", "decides_valueAtLeast",
         "decides_valueBetween", "decides_mapEqual", "decides_notDuplicated",
         "decides_hasAtLeast", "decides_hasAtMost", "decides_hasBetween",
@@ -1083,7 +1081,7 @@ class C15(Property):
         "elements are String/Integer/Boolean scalars, List/Array of them, Dict of them; validator parameters are ints/strs/bools",
         "MapEqual field paths are plain child names resolved by the harness (path evaluation is C14's subject)",
         "network validators on non-text values are not compared with the model",
-        "never generated: custom comparator/transform/domain_pattern/urlparse objects, note_warning, NotDuplicated on container members, MapEqual with nested or '..' paths (path evaluation is C14's), ValueIn with set/dict containers",
+        "never generated: custom comparator/transform/domain_pattern/urlparse objects, note_warning, NotDuplicated on container members, MapEqual with nested or '..' paths (path evaluation is C14's), ValueIn with set/dict containers (a str container is modelled)",
         "IsEmail: the docstring says the IDN domain must be 'less than 253 characters', the code accepts exactly 253; spec B and the oracle follow the code's reading (<= 253, the DNS limit) — a documentation discrepancy, not counted as a finding",
     ]
     level_text = "proof"
@@ -1122,10 +1120,13 @@ class C15(Property):
         for t, pairs in (("iter", [["a", "1"], ["b", "2"]]), ("iter", [["a", "1"], ["b", "2"], ["z", "3"]]), ("gen", [["a", "1"], ["b", "2"]])):
             for cls in ("SetWithAllFields", "SetWithKnownFields"):
                 out.append({"v": {"cls": cls}, "build": {"kind": "Dict", "name": "d", "fields": ["a", "b"], "raw": {"t": t, "pairs": pairs}}})
-        # open KF-C15-a / D-C15-8 / D-C15-9
+        # open KF-C15-a; fixed 3bf2238 (D-C15-8), 6dc976e (D-C15-9)
         out.append({"v": {"cls": "HTTPURLValidator"}, "build": {"kind": "String", "name": "url", "set": None}})
         out.append({"v": {"cls": "URLCanonicalizer"}, "build": {"kind": "String", "name": "url", "set": None}})
         out.append({"v": {"cls": "ValueIn", "valid_options": "yes"}, "build": {"kind": "String", "name": "yn", "set": None}})
+        out.append({"v": {"cls": "ValueIn", "valid_options": "yes"}, "build": {"kind": "Integer", "name": "yn", "set": 5}})
+        out.append({"v": {"cls": "ValueIn", "valid_options": "yes"}, "build": {"kind": "String", "name": "yn", "set": "es"}})
+        out.append({"v": {"cls": "URLCanonicalizer", "discard_parts": ["scheme", "path"]}, "build": {"kind": "String", "name": "url", "set": None}})
         # message attribute overridden with the empty text: a false verdict that records nothing
         out.append({"v": {"cls": "Present", "messages": [["missing", ""]]}, "build": {"kind": "String", "name": "s", "set": ""}})
         out.append({"v": {"cls": "URLCanonicalizer", "discard_parts": ["port"]}, "build": {"kind": "String", "name": "url", "set": "http://a.example/"}})
@@ -1192,8 +1193,6 @@ class C15(Property):
             return False
         if any(not ok(k) for k in (view.get("raw") or {}).get("keys", [])):
             return False
-        if isinstance(case["v"].get("valid_options"), str):
-            return False  # `value in <str>` (substring test / TypeError) is not modelled
         if case["v"]["cls"] in ("HTTPURLValidator", "URLCanonicalizer", "IsEmail") and \
                 not (view.get("value") is None or isinstance(view.get("value"), str)):
             return False  # urlparse / str methods on a number: outside the modelled domain
@@ -1215,12 +1214,6 @@ class C15(Property):
         if v["cls"] == "HTTPURLValidator" and view.get("value") is None and case["build"]["kind"] == "String" \
                 and cl == "verdict-equals-documented-condition" and failure.get("observed") is True:
             return "KF-C15-a"
-        if v["cls"] == "URLCanonicalizer" and view.get("value") is None and cl == "canonical-url-is-text" \
-                and failure.get("observed") in ({"other": "bytes"}, ""):
-            return "D-C15-8"
-        if v["cls"] == "ValueIn" and isinstance(v.get("valid_options"), str) and not isinstance(view.get("value"), str) \
-                and cl == "returns-a-verdict-without-raising" and failure.get("observed") == "TypeError":
-            return "D-C15-9"
         return None
 
     def nontrivial(self, case, obs):
